@@ -24,6 +24,97 @@ func withinSq(px, py, ax, ay, bx, by, thr float64) bool {
 	)
 }
 
+// ---- summary of distanceFromSegmentSquared (justified by HC20_Distance) ----
+
+const distFn = "github.com/twpayne/go-geom/xy.distanceFromSegmentSquared"
+
+func exactDistSq(v []float64) float64 {
+	px, py, ax, ay, bx, by := v[0], v[1], v[2], v[3], v[4], v[5]
+	dx, dy := bx-ax, by-ay
+	den := dx*dx + dy*dy
+	num := (px-ax)*dx + (py-ay)*dy
+	switch {
+	case den == 0 || num <= 0:
+		return (px-ax)*(px-ax) + (py-ay)*(py-ay)
+	case num >= den:
+		return (px-bx)*(px-bx) + (py-by)*(py-by)
+	}
+	cross := (px-ax)*dy - (py-ay)*dx
+	return cross * cross / den
+}
+
+// distSq is the squared distance as an uninterpreted function D(p; a, b) >= 0.
+func distSq(px, py, ax, ay, bx, by float64) float64 {
+	d := sym.UFReal("D", exactDistSq, px, py, ax, ay, bx, by)
+	sym.Assume(sym.FLe(0, d))
+	return d
+}
+
+func useDistanceSummary() {
+	sym.Replace(distFn, func(a, b, p []float64) float64 { return distSq(p[0], p[1], a[0], a[1], b[0], b[1]) })
+}
+
+// checkSimplifiedUF is checkSimplified with the distance taken from the summary.
+func checkSimplifiedUF(flat []float64, idx []int, n, stride int, thr float64, what string) {
+	if n < 3 {
+		sym.Assert(len(idx) == n, what+": fewer than three points are all kept")
+		for i := range idx {
+			sym.Assert(idx[i] == i, what+": fewer than three points are all kept, in order")
+		}
+		return
+	}
+	sym.Assert(len(idx) >= 2 && len(idx) <= n, what+": between 2 and n indexes")
+	if len(idx) < 2 {
+		return
+	}
+	sym.Assert(idx[0] == 0 && idx[len(idx)-1] == n-1, what+": first and last point retained")
+	for q := 1; q < len(idx); q++ {
+		j, k := idx[q-1], idx[q]
+		sym.Assert(j < k && k < n && j >= 0, what+": indexes strictly increasing and in range")
+		if !(j < k && k < n && j >= 0) {
+			return
+		}
+		for i := j + 1; i < k; i++ {
+			d := distSq(flat[i*stride], flat[i*stride+1], flat[j*stride], flat[j*stride+1], flat[k*stride], flat[k*stride+1])
+			sym.Assert(sym.FLe(d, thr*thr), what+": omitted point within the threshold of the segment joining its retained neighbours")
+		}
+	}
+}
+
+var _ = register("HC20_Worker", HC20_Worker)
+
+// HC20_Worker: the interval stack / mask logic of dpWorker for n up to 7|8 points with the distance
+// function summarised (uninterpreted, >= 0): retained indexes, threshold guarantee, idempotence.
+func HC20_Worker() {
+	N := sym.Param("N", sym.Pick(6, 7))
+	K := 10
+	sym.Bound("points", N)
+	n := Count("n", 0, N)
+	stride := []int{2, 3, 5}[sym.Choose("stride", 0, sym.Pick(1, 2))]
+	flat := gridLine(n, stride, K)
+	var thr float64
+	if !sym.Flip("zero threshold") {
+		thr = sym.Float64Range("thr4", 0, 1<<13) / 4
+	}
+	sym.Freeze(flat)
+	useDistanceSummary()
+	idx := xy.SimplifyFlatCoords(flat, thr, stride)
+	checkSimplifiedUF(flat, idx, n, stride, thr, "simplify")
+	m := len(idx)
+	if n >= 3 && m >= 2 && m <= n {
+		flat2 := make([]float64, 0, m*stride)
+		for _, i := range idx {
+			if i < 0 || i >= n {
+				return
+			}
+			flat2 = append(flat2, flat[i*stride:i*stride+stride]...)
+		}
+		idx2 := xy.SimplifyFlatCoords(flat2, thr, stride)
+		sym.Assert(len(idx2) == m, "simplifying the simplified line again removes nothing")
+	}
+	sym.Cover("end")
+}
+
 func gridLine(n, stride, k int) []float64 {
 	flat := make([]float64, n*stride)
 	for i := range flat {
@@ -61,8 +152,8 @@ func checkSimplified(flat []float64, idx []int, n, stride int, thr float64, what
 var _ = register("HC20_Simplify", HC20_Simplify)
 
 func HC20_Simplify() {
-	N := sym.Pick(5, 6)
-	K := 10
+	N := sym.Param("N", sym.Pick(3, 4))
+	K := sym.Param("K", 10)
 	sym.Bound("points", N)
 	sym.Bound("grid bits", K)
 	n := Count("n", 0, N)
